@@ -19,7 +19,7 @@ mod n {
     use std::process::Command;
 
     fn tests_root() -> PathBuf {
-        Path::new(env!("CARGO_MANIFEST_DIR")).join("../hulc_tests/tests")
+        crate_dir(env!("CARGO_MANIFEST_DIR")).join("../hulc_tests/tests")
     }
 
     fn project_dirs() -> Vec<PathBuf> {
@@ -144,7 +144,7 @@ mod n {
         dirs.push(turned.clone());
         dirs.push(shaded.clone());
         let have_bins = bin("hulc2model").exists() && bin("thor").exists();
-        drive("C01.export", "the real hulc2model binary on the 12 shipped project directories x {default, --use-extra}, on an empty directory, a directory without project, a missing one and two directories whose project the library rejects (cut in half, broken reference) and a copy of `cubo` with a damaged KyGananciasSolares.txt (converts by default, fails with --use-extra), four synthetic variants of `cubo` (a zero-area ground slab with / without perimeter insulation; turned by 30 degrees with its space shifted; an overhang and two fins on every window); the same directory given with a trailing slash and as a relative path; thor -o on the 12 project files, into a new file and over an existing longer one; compared with collect_hulc_data / Model::try_from in this process", |c| {
+        drive("C01.export", "the real hulc2model binary on the 12 shipped project directories x {default, --use-extra}, on an empty directory, a directory without project, a missing one and two directories whose project the library rejects (cut in half, broken reference) and a copy of `cubo` with a damaged KyGananciasSolares.txt (converts by default, fails with --use-extra), four synthetic variants of `cubo` (a zero-area ground slab with / without perimeter insulation; turned by 30 degrees with its space shifted; an overhang and two fins on every window); the same directory given with a trailing slash and as a relative path; thor -o on the project files, into a new file and over an existing longer one, alone and together with -r (either order); compared with collect_hulc_data / Model::try_from in this process", |c| {
             c.check("C01.tools_built", have_bins, || format!("hulc2model / thor not found in {:?}", std::env::var("VERIF_BIN_DIR")));
             c.check("C01.corpus", dirs.len() >= 17 && std::fs::read_to_string(turned.join("cubo_turned.ctehexml")).map(|t| t.contains("AZIMUTH   = 30.000000") && t.contains("            X = 3\n")).unwrap_or(false) && std::fs::read_to_string(shaded.join("cubo_shaded.ctehexml")).map(|t| t.contains("OVERHANG-D = 0.6")).unwrap_or(false) && std::fs::read_to_string(sliver.join("cubo_sliver.ctehexml")).map(|t| t.contains("P01_E01_FTER000_Pol") && t.matches("P01_E01_FTER000\"").count() >= 1).unwrap_or(false), || format!("{} project directories", dirs.len()));
             if !have_bins {
@@ -237,12 +237,29 @@ mod n {
                 if prefill {
                     std::fs::write(&outfile, "x".repeat(want.len() + 4096)).unwrap();
                 }
-                let out = Command::new(bin("thor")).arg(&file).arg("-o").arg(&outfile).current_dir(&outdir).output().expect("spawn thor");
+                // thor may be asked for the indicators as well (-r FILE), before or after -o: the -o file is still the model
+                let with_r = c.pick(3);
+                let resfile = outdir.join("indicadores.json");
+                let _ = std::fs::remove_file(&resfile);
+                let mut cmd = Command::new(bin("thor"));
+                cmd.arg(&file);
+                if with_r == 2 {
+                    cmd.arg("-r").arg(&resfile);
+                }
+                cmd.arg("-o").arg(&outfile);
+                if with_r == 1 {
+                    cmd.arg("-r").arg(&resfile);
+                }
+                let out = cmd.current_dir(&outdir).output().expect("spawn thor");
                 let got = std::fs::read_to_string(&outfile).unwrap_or_default();
+                if with_r > 0 {
+                    let res = std::fs::read_to_string(&resfile).unwrap_or_default();
+                    c.check("C01.thor.results_file", serde_json::from_str::<serde_json::Value>(&res).map(|v| v.get("K_data").is_some()).unwrap_or(false), || format!("thor {} -o .. -r ..: the -r file holds {} bytes that are not the indicators", name, res.len()));
+                }
                 c.check("C01.thor.exit_zero", out.status.success(), || format!("thor {}: exit {:?}", name, out.status.code()));
                 c.check("C01.thor.same_json", got.trim_end() == want.trim_end(), || format!("thor {} -o: file ({} bytes) differs from the library's model JSON ({} bytes)", name, got.len(), want.len()));
                 let _ = std::fs::remove_dir_all(&outdir);
-                c.nontrivial(format!("thor {} {}", name, prefill));
+                c.nontrivial(format!("thor {} {} {}", name, prefill, with_r));
                 c.sample(|| format!("thor {} -o: {} bytes, identical to the library's JSON", name, got.len()));
             }
         });
